@@ -329,6 +329,17 @@ func init() {
 	intrinsics[B+"Neg"] = func(e *Exec, a []Value) Value {
 		return setBig(a[0], IntBin("-", IntC(bigZero()), bigOf(e, a[1])))
 	}
+	intrinsics[B+"SetBytes"] = func(e *Exec, a []Value) Value {
+		if !intMode {
+			e.fail("big.Int.SetBytes needs the int integer theory")
+		}
+		bs := e.bytesOf(a[1])
+		acc := IntC(bigZero())
+		for _, b := range bs {
+			acc = IntBin("+", IntBin("*", acc, IntC(big.NewInt(256))), b)
+		}
+		return setBig(a[0], acc)
+	}
 	intrinsics[B+"SetUint64"] = func(e *Exec, a []Value) Value { return setBig(a[0], toInt(a[1].(VInt).T, false)) }
 	intrinsics[B+"SetInt64"] = func(e *Exec, a []Value) Value { return setBig(a[0], toInt(a[1].(VInt).T, true)) }
 	intrinsics["math/big.NewInt"] = func(e *Exec, a []Value) Value { return newBig(toInt(a[0].(VInt).T, true)) }
